@@ -561,4 +561,29 @@ def expand_repo(repo):
     for m in repo.modules.values():
         ast.fix_missing_locations(m.tree)
     repo.inlined_sites = inl.sites
+    # a helper whose every use in its module has been expanded is no longer a unit of its own: its statements are
+    # analysed in the context of each caller (lock held, loop, guard), not again without context
+    repo.inlined_helpers = []
+    for gfq in sorted({g for _f, g in inl.sites}):
+        g = repo.func(gfq)
+        m = g.module
+        used = False
+        for n in ast.walk(m.tree):
+            if n is g.node:
+                continue
+            if (isinstance(n, ast.Name) and n.id == g.name) or (isinstance(n, ast.Attribute) and n.attr == g.name):
+                # still referenced (not inlinable at that site, passed as a callback, ...), unless inside g itself
+                if not any(x is n for x in ast.walk(g.node)):
+                    used = True
+                    break
+        if not used:
+            m.functions.pop(g.qualname, None)
+            if g.cls is not None and g.cls.methods.get(g.name) is g:
+                g.cls.methods.pop(g.name, None)
+            for holder in ([g.cls.node] if g.cls is not None else []) + [m.tree]:
+                if g.node in holder.body:
+                    holder.body = [x for x in holder.body if x is not g.node]
+                    if not holder.body:
+                        holder.body = [ast.Pass()]
+            repo.inlined_helpers.append(gfq)
     return inl.count
